@@ -7,6 +7,7 @@
   operation of the unit.  Core Lean only.
 -/
 import MajoranaVerif.Model.Mmu
+import MajoranaVerif.Model.SeqMachine
 import MajoranaVerif.Proofs.LineCache
 open GoInt LineCache
 
@@ -85,5 +86,273 @@ theorem writeToMemory_spec (mem : List Byte) (lo : Int) (data : List Byte) (hlo 
             simp only [this, hc, and_self, if_true]
           · have : ¬ (x - lo.toNat < (v :: vs).length ∧ x - lo.toNat < mem.length - lo.toNat) := by omega
             simp only [this, hc, if_false, e]
+
+/-! ### alignment -/
+
+/-- Go's `addr - addr % L` -/
+def base (L : Int) (x : Int) : Int := x - Int.tmod x L
+
+theorem base_eq (L x : Int) (hx : 0 ≤ x) : base L x = x - x % L := by
+  unfold base; rw [Int.tmod_eq_emod_of_nonneg hx]
+
+theorem base_spec (L x : Int) (hL : 0 < L) (hx : 0 ≤ x) :
+    0 ≤ base L x ∧ base L x ≤ x ∧ x < base L x + L ∧ base L x % L = 0 := by
+  rw [base_eq L x hx]
+  have h1 := Int.emod_nonneg x (Int.ne_of_gt hL)
+  have h2 := Int.emod_lt_of_pos x hL
+  have h3 : x - x % L = L * (x / L) := by
+    have := Int.mul_ediv_add_emod x L; omega
+  have h4 : 0 ≤ x / L := Int.ediv_nonneg hx (Int.le_of_lt hL)
+  refine ⟨?_, by omega, by omega, ?_⟩
+  · rw [h3]; exact Int.mul_nonneg (Int.le_of_lt hL) h4
+  · rw [h3]; exact Int.mul_emod_right L (x / L)
+
+/-- an aligned block contains `x` iff it starts at `x`'s base -/
+theorem block_iff_base (L lo x : Int) (hL : 0 < L) (hx : 0 ≤ x) (hal : lo % L = 0) :
+    (lo ≤ x ∧ x < lo + L) ↔ lo = base L x := by
+  constructor
+  · intro ⟨h1, h2⟩
+    rw [base_eq L x hx]
+    have h3 : lo = L * (lo / L) := by
+      have := Int.mul_ediv_add_emod lo L; omega
+    have h4 : x % L = x - lo := by
+      have e : x = (x - lo) + L * (lo / L) := by omega
+      rw [e, Int.add_mul_emod_self_left, Int.emod_eq_of_lt (by omega) (by omega)]
+      omega
+    omega
+  · intro h
+    obtain ⟨_, h2, h3, _⟩ := base_spec L x hL hx
+    omega
+
+/-! ### the structural invariant of the data cache -/
+
+structure LineWf (L : Nat) (l : Line) : Prop where
+  hi : l.hi = l.lo + L
+  len : l.data.length = L
+  nonneg : 0 ≤ l.lo
+  aligned : l.lo % (L : Int) = 0
+
+structure DWf (L n : Nat) (c : Cache) : Prop where
+  lineLength : c.lineLength = L
+  numberOfLines : c.numberOfLines = n
+  lines : ∀ l ∈ c.lines, LineWf L l
+  distinct : c.lines.Pairwise (fun a b => a.lo ≠ b.lo)
+  count : c.lines.length ≤ n
+
+theorem LineWf.covers_iff {L : Nat} {l : Line} (h : LineWf L l) (hL : 0 < L) (x : Int) (hx : 0 ≤ x) :
+    l.covers x = true ↔ l.lo = base L x := by
+  rw [Proofs.LC.covers_iff, h.hi]
+  exact block_iff_base L l.lo x (by omega) hx h.aligned
+
+/-- two resident lines with the same base are the same line -/
+theorem DWf.unique {L n : Nat} {c : Cache} (h : DWf L n c) {l1 l2 : Line} (h1 : l1 ∈ c.lines) (h2 : l2 ∈ c.lines)
+    (he : l1.lo = l2.lo) : l1 = l2 := by
+  have := h.distinct
+  generalize c.lines = ls at h1 h2 this
+  induction this with
+  | nil => cases h1
+  | cons hx _ ih =>
+    rename_i x xs
+    rcases List.mem_cons.mp h1 with rfl | h1' <;> rcases List.mem_cons.mp h2 with rfl | h2'
+    · rfl
+    · exact absurd he (hx _ h2')
+    · exact absurd he.symm (hx _ h1')
+    · exact ih h1' h2'
+
+/-- the invariant depends on the lines only up to order -/
+theorem DWf.perm {L n : Nat} {c : Cache} (h : DWf L n c) (ls : List Line) (hp : ls.Perm c.lines) :
+    DWf L n { c with lines := ls } :=
+  { lineLength := h.lineLength, numberOfLines := h.numberOfLines,
+    lines := fun l hl => h.lines l (hp.mem_iff.mp hl),
+    distinct := (hp.pairwise_iff (fun {a b} (hab : a.lo ≠ b.lo) => Ne.symm hab)).mpr h.distinct,
+    count := by rw [hp.length_eq]; exact h.count }
+
+theorem touch_perm (pre post : List Line) (l : Line) : (l :: (pre ++ post)).Perm (pre ++ l :: post) :=
+  List.perm_middle.symm
+
+/-! ### coherence: (ctx.Memory, L1D) against the flat memory of the cache-less machine -/
+
+/-- every byte of a resident line that lies inside memory is the flat memory's byte, and every byte of
+`mem` that no resident line covers is the flat memory's byte -/
+structure Coh (lines : List Line) (mem flat : List Byte) : Prop where
+  len : mem.length = flat.length
+  cached : ∀ l ∈ lines, ∀ x : Nat, l.covers x = true → x < flat.length → l.data[((x : Int) - l.lo).toNat]? = flat[x]?
+  uncached : ∀ x : Nat, x < flat.length → (∀ l ∈ lines, l.covers x = false) → mem[x]? = flat[x]?
+
+theorem Coh.congr_mem {ls ls' : List Line} {mem flat : List Byte} (h : Coh ls mem flat)
+    (hm : ∀ l, l ∈ ls' ↔ l ∈ ls) : Coh ls' mem flat :=
+  { len := h.len,
+    cached := fun l hl => h.cached l ((hm l).mp hl),
+    uncached := fun x hx hu => h.uncached x hx (fun l hl => hu l ((hm l).mpr hl)) }
+
+/-- the view: the byte of the first resident line that covers `x`, else the memory byte -/
+def view (lines : List Line) (mem : List Byte) (x : Nat) : Option Byte :=
+  match lines.find? (fun l => l.covers x) with
+  | some l => l.data[((x : Int) - l.lo).toNat]?
+  | none => mem[x]?
+
+/-- coherence says: the view IS the flat memory -/
+theorem Coh.view_eq {ls : List Line} {mem flat : List Byte} (h : Coh ls mem flat) (x : Nat) (hx : x < flat.length) :
+    view ls mem x = flat[x]? := by
+  unfold view
+  cases hf : ls.find? (fun l => l.covers x) with
+  | some l =>
+    have hm := List.mem_of_find?_eq_some hf
+    have hc := List.find?_some hf
+    exact h.cached l hm x hc hx
+  | none =>
+    have := List.find?_eq_none.mp hf
+    exact h.uncached x hx (fun l hl => by simpa using this l hl)
+
+/-! ### `Get` and the `getFromL1D` loop -/
+
+theorem nat_of_word {a : Word} (h : 0 ≤ a.toInt) : ((a.toInt.toNat : Nat) : Int) = a.toInt := by omega
+
+/-- a hit: the byte is the flat byte, the line moves to the front -/
+theorem get_hit {c : Cache} {mem flat : List Byte} (hc : Coh c.lines mem flat)
+    {a : Int} (ha : 0 ≤ a) (hlt : a.toNat < flat.length) {pre post : List Line} {l : Line}
+    (hs : splitAt a c.lines = some (pre, l, post)) :
+    ∃ v, flat[a.toNat]? = some v ∧ LineCache.get c a = .ok (some v, { c with lines := l :: (pre ++ post) }) := by
+  obtain ⟨hl, hcov, _⟩ := splitAt_some hs
+  have hmem : l ∈ c.lines := by rw [hl]; simp
+  have hx : ((a.toNat : Nat) : Int) = a := by omega
+  have h1 := hc.cached l hmem a.toNat (by rw [hx]; exact hcov) hlt
+  rw [hx] at h1
+  have h2 : flat[a.toNat]? = some flat[a.toNat] := List.getElem?_eq_getElem hlt
+  refine ⟨flat[a.toNat], h2, ?_⟩
+  unfold LineCache.get
+  simp only [hs, Line.at, h1, h2]
+  rfl
+
+theorem get_miss' {c : Cache} {a : Int} (hs : ∀ y ∈ c.lines, y.covers a = false) : LineCache.get c a = .ok (none, c) := by
+  unfold LineCache.get
+  cases h : splitAt a c.lines with
+  | none => rfl
+  | some r =>
+    obtain ⟨pre, l, post⟩ := r
+    obtain ⟨hl, hcov, _⟩ := splitAt_some h
+    have := hs l (by rw [hl]; simp)
+    rw [this] at hcov; cases hcov
+
+/-- `readMem` of an in-range address -/
+theorem readMem_ok (flat : List Byte) (a : Word) (h0 : 0 ≤ a.toInt) :
+    Model.Seq.readMem flat a = flat[a.toInt.toNat]? := by
+  unfold Model.Seq.readMem
+  have : ¬ a.toInt < 0 := by omega
+  simp only [this, if_false]
+
+/-- all addresses in one resident line and inside memory: the loop returns the flat memory's bytes;
+only the order of the lines changes -/
+theorem getAll_hit {L n : Nat} (hL : 0 < L) {mem flat : List Byte} (b : Int) :
+    ∀ (addrs : List Word) (c : Cache), DWf L n c → Coh c.lines mem flat → (∃ l ∈ c.lines, l.lo = b) →
+      (∀ a ∈ addrs, 0 ≤ a.toInt ∧ a.toInt.toNat < flat.length ∧ base L a.toInt = b) →
+      ∃ bytes ls, getAll c addrs = .ok (some bytes, { c with lines := ls }) ∧ ls.Perm c.lines ∧
+        addrs.mapM (Model.Seq.readMem flat) = some bytes := by
+  intro addrs
+  induction addrs with
+  | nil =>
+    intro c _ _ _ _
+    exact ⟨[], c.lines, rfl, List.Perm.refl _, rfl⟩
+  | cons a as ih =>
+    intro c hw hc hl hall
+    obtain ⟨h0, hlt, hb⟩ := hall a (by simp)
+    obtain ⟨l, hlm, hlo⟩ := hl
+    have hcov : l.covers a.toInt = true := ((hw.lines l hlm).covers_iff hL a.toInt h0).mpr (by rw [hlo, hb])
+    obtain ⟨pre, x, post, hs⟩ := splitAt_isSome ⟨l, hlm, hcov⟩
+    obtain ⟨v, hv, hg⟩ := get_hit hc h0 hlt hs
+    obtain ⟨hsplit, _, _⟩ := splitAt_some hs
+    have hp : (x :: (pre ++ post)).Perm c.lines := by rw [hsplit]; exact touch_perm pre post x
+    have hw1 := hw.perm _ hp
+    have hc1 : Coh (x :: (pre ++ post)) mem flat := hc.congr_mem (fun y => hp.mem_iff)
+    obtain ⟨bytes, ls, hga, hperm, hmap⟩ := ih { c with lines := x :: (pre ++ post) } hw1 hc1
+      ⟨l, hp.mem_iff.mpr hlm, hlo⟩ (fun a' ha' => hall a' (by simp [ha']))
+    refine ⟨v :: bytes, ls, ?_, hperm.trans hp, ?_⟩
+    · unfold getAll
+      simp only [hg, bind, Except.bind, hga, Option.map_some]
+      rfl
+    · simp only [List.mapM_cons, readMem_ok flat a h0, hv, hmap]
+      rfl
+
+/-- the first address is in no resident line: `(nil, false)`, the cache is untouched -/
+theorem getAll_miss {c : Cache} (a0 : Word) (as : List Word) (hs : ∀ y ∈ c.lines, y.covers a0.toInt = false) :
+    getAll c (a0 :: as) = .ok (none, c) := by
+  unfold getAll
+  simp only [get_miss' hs, bind, Except.bind]
+  rfl
+
+/-! ### line fill: `fetchCacheLine` + `pushLineToL1D` (with the victim's write-back) -/
+
+theorem alignDown_ok (a L : Int) (hL : L ≠ 0) : LineCache.alignDown a L = .ok (base L a) := by
+  unfold LineCache.alignDown base
+  simp only [hL, if_false]; rfl
+
+theorem fetchCacheLine_ok (cfg : Config) (L : Nat) (hcfg : cfg.l1DLineSize = L) (hL : 0 < L) (mem : List Byte)
+    (a : Word) (h0 : 0 ≤ a.toInt) :
+    fetchCacheLine cfg mem a = .ok (padTake (mem.drop (base L a.toInt).toNat) L) := by
+  obtain ⟨hb, _, _, _⟩ := base_spec L a.toInt (by omega) h0
+  unfold fetchCacheLine
+  rw [hcfg, alignDown_ok _ _ (by omega)]
+  have h1 : ¬ ((L : Int) < 0) := by omega
+  have h2 : ¬ ((L : Int) = 0) := by omega
+  have h3 : ¬ (base (L : Int) a.toInt < 0) := by omega
+  simp only [bind, Except.bind, h1, h2, h3, if_false, Int.toNat_natCast]
+  rfl
+
+/-- the fetched line holds the memory bytes of its block (and zeros past the end of memory) -/
+theorem fetched_bytes (mem : List Byte) (b L x : Nat) (h1 : b ≤ x) (h2 : x < b + L) (h3 : x < mem.length) :
+    (padTake (mem.drop b) L)[x - b]? = mem[x]? := by
+  rw [padTake_getElem? _ _ _ (by omega)]
+  have : b + (x - b) = x := by omega
+  simp only [List.getD_eq_getElem?_getD, List.getElem?_drop, this]
+  rw [List.getElem?_eq_getElem h3]; rfl
+
+/-- pushing a line that agrees with the flat memory keeps coherence -/
+theorem Coh.push {ls : List Line} {mem flat : List Byte} (h : Coh ls mem flat) (nl : Line)
+    (hnl : ∀ x : Nat, nl.covers x = true → x < flat.length → nl.data[((x : Int) - nl.lo).toNat]? = flat[x]?) :
+    Coh (nl :: ls) mem flat :=
+  { len := h.len,
+    cached := by
+      intro l hl x hc hx
+      rcases List.mem_cons.mp hl with rfl | hl
+      · exact hnl x hc hx
+      · exact h.cached l hl x hc hx,
+    uncached := fun x hx hu => h.uncached x hx (fun l hl => hu l (List.mem_cons_of_mem _ hl)) }
+
+/-- **a victim's bytes are never lost**: removing a resident line and writing its data back to memory
+at its base keeps coherence with the same flat memory -/
+theorem Coh.evict {pre post : List Line} {x : Line} {mem flat mem' : List Byte} {L : Nat}
+    (h : Coh (pre ++ x :: post) mem flat) (hx : LineWf L x)
+    (hwb : writeToMemory mem x.lo x.data = .ok mem') : Coh (pre ++ post) mem' flat := by
+  obtain ⟨m2, h1, h2, h3⟩ := writeToMemory_spec mem x.lo x.data hx.nonneg
+  rw [hwb] at h1
+  injection h1 with h1; subst h1
+  refine { len := by rw [h2]; exact h.len, cached := ?_, uncached := ?_ }
+  · intro l hl y hc hy
+    exact h.cached l (mem_middle hl) y hc hy
+  · intro y hy hu
+    rw [h3 y]
+    by_cases hc : x.covers y = true
+    · have hcc := (Proofs.LC.covers_iff x y).mp hc
+      rw [hx.hi] at hcc
+      have hlen := h.len
+      have : x.lo ≤ (y : Int) ∧ (y : Int) < x.lo + (x.data.length : Nat) ∧ y < mem.length := by
+        rw [hx.len]; omega
+      simp only [this, and_self, if_true]
+      have e : y - x.lo.toNat = ((y : Int) - x.lo).toNat := by have := hx.nonneg; omega
+      rw [e]
+      exact h.cached x (by simp) y hc hy
+    · have hc' : x.covers y = false := by simpa using hc
+      have hcc := (covers_false_iff x y).mp hc'
+      rw [hx.hi] at hcc
+      have : ¬ (x.lo ≤ (y : Int) ∧ (y : Int) < x.lo + (x.data.length : Nat) ∧ y < mem.length) := by
+        rw [hx.len]; omega
+      simp only [this, if_false]
+      apply h.uncached y hy
+      intro l hl
+      rcases List.mem_append.mp hl with hl | hl
+      · exact hu l (List.mem_append_left _ hl)
+      · rcases List.mem_cons.mp hl with rfl | hl
+        · exact hc'
+        · exact hu l (List.mem_append_right _ hl)
 
 end Proofs.Mmu
